@@ -17,6 +17,7 @@ type env struct {
 	old     State // heap at function entry (old(...))
 	pre     State // heap at loop entry (pre(...))
 	results []Val
+	callArgs []Val // arguments of the call a point assertion / ghost assignment is anchored at (callarg0 …)
 	atBlock *ssa.BasicBlock // for resolving source locals (loop invariants)
 	atInstr ssa.Instruction
 	atEnd   bool // names resolve at the end of atBlock (return state) instead of its entry
@@ -224,6 +225,24 @@ func (g *gen) elabName(name string, e *env) (Val, error) {
 		}
 	case "alloctop":
 		return intVal(g.stGet(e.st, "alloctop")), nil
+	}
+	if strings.HasPrefix(name, "visited") {
+		n := len(g.rangeComps)
+		if name != "visited" {
+			if _, err := fmt.Sscanf(name, "visited%d", &n); err != nil {
+				n = 0
+			}
+		}
+		if n >= 1 && n <= len(g.rangeComps) && (name != "visited" || len(g.rangeComps) == 1) {
+			comp := g.rangeComps[n-1]
+			return Val{T: g.stGet(e.st, comp), S: g.ctx.compSort[comp]}, nil
+		}
+	}
+	if strings.HasPrefix(name, "callarg") {
+		var i int
+		if _, err := fmt.Sscanf(name, "callarg%d", &i); err == nil && i < len(e.callArgs) {
+			return e.callArgs[i], nil
+		}
 	}
 	if strings.HasPrefix(name, "result") {
 		var i int
@@ -479,6 +498,16 @@ func (g *gen) elabField(x *Expr, e *env) (Val, error) {
 			if v, ok := g.pkgConst(x.Args[0].S, x.S); ok {
 				return v, nil
 			}
+			// package-qualified sentinel error, e.g. io.EOF
+			for _, sp := range g.prog.prog.AllPackages() {
+				if sp.Pkg.Name() == x.Args[0].S {
+					if gl, ok := sp.Members[x.S].(*ssa.Global); ok {
+						if t, ok := sentinelErr(gl); ok {
+							return Val{T: t, S: "Iface", GoT: gl.Type().(*types.Pointer).Elem()}, nil
+						}
+					}
+				}
+			}
 		}
 	}
 	a, err := g.elab1(x.Args[0], e)
@@ -550,10 +579,18 @@ func (g *gen) elabIndex(x *Expr, e *env) (Val, error) {
 		et := a.GoT.Underlying().(*types.Slice).Elem()
 		es := g.ctx.sortOf(et)
 		comp := g.ctx.elemComp(es)
+		if strings.HasPrefix(i.T, "(- q_") && strings.HasSuffix(i.T, " (s.off "+a.T+"))") {
+			// absolute-index quantifier (see elabQuant): off + (q - off) = q
+			q := strings.TrimSuffix(strings.TrimPrefix(i.T, "(- "), " (s.off "+a.T+"))")
+			return Val{T: "(select (select " + g.stGet(e.st, comp) + " (s.ref " + a.T + ")) " + q + ")", S: es, GoT: et}, nil
+		}
 		return Val{T: "(select (select " + g.stGet(e.st, comp) + " (s.ref " + a.T + ")) (idx (s.off " + a.T + ") " + i.T + "))", S: es, GoT: et}, nil
 	}
 	if strings.HasPrefix(a.S, "(Array Int ") && a.GoT == nil {
 		return Val{T: "(select " + a.T + " " + i.T + ")", S: a.S[len("(Array Int ") : len(a.S)-1]}, nil
+	}
+	if strings.HasPrefix(a.S, "(Array ") && strings.HasSuffix(a.S, " Bool)") && a.GoT == nil {
+		return boolVal("(select " + a.T + " " + i.T + ")"), nil
 	}
 	if a.GoT != nil {
 		switch u := a.GoT.Underlying().(type) {
@@ -583,6 +620,25 @@ func (g *gen) elabQuant(x *Expr, e *env) (Val, error) {
 	var binds []string
 	var guards []string
 	cur := e
+	// Absolute-index form: `forall i {s[i]} :: P(i)` over a slice s is emitted as a quantifier over the
+	// absolute array index q (= off(s) + i) with the pattern (select elems(s) q), so that it is instantiated
+	// by reads through any alias of the same backing array (sub-slices with another offset), which the
+	// relative pattern (idx off(s) i) does not match.
+	var absSlice *Val
+	absPat := ""
+	if len(x.Binders) == 1 && x.Binders[0].Keys == nil && (x.Binders[0].Type == "" || x.Binders[0].Type == "int") &&
+		len(x.Triggers) == 1 && len(x.Triggers[0]) == 1 && os.Getenv("GOVC_NOABS") == "" {
+		t := x.Triggers[0][0]
+		if t.Op == "index" && t.Args[1].Op == "name" && t.Args[1].S == x.Binders[0].Name {
+			if a, err := g.elab1(t.Args[0], e); err == nil && a.S == "Slice" && a.GoT != nil {
+				if st, ok := a.GoT.Underlying().(*types.Slice); ok {
+					absSlice = &a
+					comp := g.ctx.elemComp(g.ctx.sortOf(st.Elem()))
+					absPat = "(select (select " + g.stGet(e.st, comp) + " (s.ref " + a.T + ")) q_" + x.Binders[0].Name + ")"
+				}
+			}
+		}
+	}
 	for _, b := range x.Binders {
 		s := "Int"
 		var gt types.Type = types.Typ[types.Int]
@@ -609,7 +665,11 @@ func (g *gen) elabQuant(x *Expr, e *env) (Val, error) {
 		}
 		qn := "q_" + b.Name
 		binds = append(binds, "("+qn+" "+s+")")
-		cur = cur.bindName(b.Name, Val{T: qn, S: s, GoT: gt})
+		bv := qn
+		if absSlice != nil {
+			bv = "(- " + qn + " (s.off " + absSlice.T + "))"
+		}
+		cur = cur.bindName(b.Name, Val{T: bv, S: s, GoT: gt})
 		if keyGuard != "" {
 			guards = append(guards, keyGuard)
 		}
@@ -622,7 +682,7 @@ func (g *gen) elabQuant(x *Expr, e *env) (Val, error) {
 			if err != nil {
 				return Val{}, err
 			}
-			guards = append(guards, "(<= "+lo.T+" "+qn+")", "(< "+qn+" "+hi.T+")")
+			guards = append(guards, "(<= "+lo.T+" "+bv+")", "(< "+bv+" "+hi.T+")")
 		}
 	}
 	body, err := g.elabBool(x.Args[0], cur)
@@ -630,7 +690,13 @@ func (g *gen) elabQuant(x *Expr, e *env) (Val, error) {
 		return Val{}, err
 	}
 	var pats string
+	if absSlice != nil {
+		pats = " :pattern (" + absPat + ")"
+	}
 	for _, tr := range x.Triggers {
+		if absSlice != nil {
+			break
+		}
 		var ts []string
 		for _, t := range tr {
 			tv, err := g.elabTrigger(t, cur)
@@ -773,6 +839,16 @@ func (g *gen) elabCall(x *Expr, e *env) (Val, error) {
 			return Val{}, err
 		}
 		return intVal("(s.cap " + as[0].T + ")"), nil
+	case "sentinel":
+		// sentinel(err): err is one of the package-level sentinel error values (io.EOF, ErrX …)
+		as, err := args()
+		if err != nil {
+			return Val{}, err
+		}
+		if len(as) != 1 || as[0].S != "Iface" {
+			return Val{}, fmt.Errorf("sentinel(err) needs an interface value")
+		}
+		return boolVal("(and ((_ is iface-mk) " + as[0].T + ") (= (i.tag " + as[0].T + ") 1000000))"), nil
 	case "has":
 		as, err := args()
 		if err != nil {
@@ -893,6 +969,16 @@ func (g *gen) elabCall(x *Expr, e *env) (Val, error) {
 			return Val{}, err
 		}
 		return intVal("(s.off " + as[0].T + ")"), nil
+	case "ref":
+		// ref(s): identity of the backing array of a slice
+		as, err := args()
+		if err != nil {
+			return Val{}, err
+		}
+		if as[0].S != "Slice" {
+			return Val{}, fmt.Errorf("ref(s) needs a slice")
+		}
+		return intVal("(s.ref " + as[0].T + ")"), nil
 	case "store":
 		as, err := args()
 		if err != nil {
@@ -939,6 +1025,9 @@ func (g *gen) elabCall(x *Expr, e *env) (Val, error) {
 		as, err := args()
 		if err != nil {
 			return Val{}, err
+		}
+		if as[0].S == "Slice" {
+			return boolVal("(>= (s.ref " + as[0].T + ") " + g.stGet(e.old, "alloctop") + ")"), nil
 		}
 		return boolVal("(>= " + as[0].T + " " + g.stGet(e.old, "alloctop") + ")"), nil
 	case "typeis":
